@@ -385,7 +385,7 @@ class EMCopy(Contract):
     of the original partner identifiers (receivers, transmitters, base stations); the partner is
     copied as well and linked to the copy, not to the original."""
     target = "geoh5py/objects/surveys/electromagnetics/base.py::BaseEMSurvey.copy"
-    props = ("C20",)
+    props = ("C20", "C12")
     lenient = True
     uses = (CellCopyStub,)
 
@@ -401,7 +401,9 @@ class EMCopy(Contract):
             ids["Transmitters"] = uuid.UUID(int=2)
         elif ctx.case.startswith("tipper"):
             ids["Base stations"] = uuid.UUID(int=3)
-        em = {"Channels": PList([1.0, 2.0]), "Input type": "Rx", "Survey type": "Airborne TEM", "Unit": "Milliseconds (ms)", "Loop radius": 1.5}
+        # legitimate parameter values include 0.0 and False
+        em = {"Channels": PList([1.0, 2.0]), "Input type": "Rx", "Survey type": "Airborne TEM", "Unit": "Milliseconds (ms)", "Loop radius": 1.5,
+              "Pitch": 0.0, "Crossline offset": 0.0, "Relative to bearing": False}
         em.update(ids)
         me.attrs["metadata"] = PDict({"EM Dataset": PDict(dict(sorted(em.items())))})
         partner = None
@@ -429,7 +431,7 @@ class EMCopy(Contract):
         for key in e["ids"]:
             ctx.oblige(f"the-originals-{key.replace(' ', '-')}-identifier-is-not-forwarded-to-the-copy", key not in forwarded,
                        note=f"the copy is given the original's {key} identifier and stays linked to (or re-links) the original partner")
-        for key in ("Channels", "Input type", "Survey type", "Unit", "Loop radius"):
+        for key in ("Channels", "Input type", "Survey type", "Unit", "Loop radius", "Pitch", "Crossline offset", "Relative to bearing"):
             ctx.oblige(f"shared-parameter-{key.replace(' ', '-')}-reaches-the-copy", key in forwarded)
         cc = [p for k, p in ctx.path.events if k == "copy-complement"]
         if e["partner"] is not None:
